@@ -11,10 +11,14 @@ CHECK = {
     "tests": [
         T("sizeclass", "TestC07ChoicesWellFormed",
           {"checks": 25000, "shards": 2, "timeout": 300},
-          {"checks": 300000, "shards": 8, "timeout": 1500}),
+          {"checks": 250000, "shards": 8, "timeout": 1500}),
         T("sizeclass", "TestC07StatsPersistence",
           {"checks": 6000, "shards": 2, "timeout": 300, "steps": 40},
           {"checks": 60000, "shards": 8, "timeout": 1500, "steps": 60}),
+        # Deterministic scripts of the repaired defects F1-F3 (harness/sizeclass/FINDINGS.md).
+        T("sizeclass", "TestC07Regress.*",
+          {"checks": 1, "shards": 1, "timeout": 120},
+          {"checks": 1, "shards": 1, "timeout": 120}),
     ],
 }
 META = {
